@@ -28,9 +28,12 @@ func (r *Parser) ParseError(format string, a ...interface{}) error {
 	return fmt.Errorf("parse error at pos=%d: %s", r.pos, fmt.Sprintf(format, a...))
 }
 
+// NextBytes reads exactly n bytes. A reader may return fewer bytes than asked
+// for in one call, so the read is repeated until the buffer is full.
 func (r *Parser) NextBytes(n int) ([]byte, error) {
 	b := r.buf.Buffer(n)
-	_, err := r.Read(b)
+	m, err := io.ReadFull(r.r, b)
+	r.pos += m
 	return b, err
 }
 
